@@ -133,7 +133,11 @@ impl DecStr {
     }
     pub fn to_plain(&self) -> String {
         let i = if self.int.is_empty() { "0" } else { &self.int };
-        if self.frac.is_empty() { i.to_string() } else { format!("{}.{}", i, self.frac) }
+        if self.frac.is_empty() {
+            i.to_string()
+        } else {
+            format!("{}.{}", i, self.frac)
+        }
     }
     /// From a serde_json number rendered in its shortest form (handles exponents).
     pub fn from_json_number(v: &serde_json::Value) -> Option<DecStr> {
@@ -185,7 +189,10 @@ fn segments(s: &str) -> Vec<Seg> {
     let mut text = String::new();
     while i < cs.len() {
         // a decimal may also start with its separator (`,5`) when no digit precedes it
-        let lead_sep = (cs[i] == ',' || cs[i] == '.') && i + 1 < cs.len() && cs[i + 1].is_ascii_digit() && (i == 0 || !cs[i - 1].is_ascii_digit());
+        let lead_sep = (cs[i] == ',' || cs[i] == '.')
+            && i + 1 < cs.len()
+            && cs[i + 1].is_ascii_digit()
+            && (i == 0 || !cs[i - 1].is_ascii_digit());
         if lead_sep {
             let st = i;
             i += 1;
@@ -232,7 +239,9 @@ fn segments(s: &str) -> Vec<Seg> {
 pub fn has_long_number(s: &str) -> bool {
     segments(s).iter().any(|g| match g {
         // formatted with up to 4 decimals (the largest currency precision)
-        Seg::Num(d) => d.int.len() + d.frac.len() > 15 || (d.int.len() >= 12 && d.int.len() + 4 > 15),
+        Seg::Num(d) => {
+            d.int.len() + d.frac.len() > 15 || (d.int.len() >= 12 && d.int.len() + 4 > 15)
+        }
         _ => false,
     })
 }
@@ -267,7 +276,11 @@ pub fn days_in_month(y: i32, m: u32) -> u32 {
         1 | 3 | 5 | 7 | 8 | 10 | 12 => 31,
         4 | 6 | 9 | 11 => 30,
         2 => {
-            if is_leap(y) { 29 } else { 28 }
+            if is_leap(y) {
+                29
+            } else {
+                28
+            }
         }
         _ => 0,
     }
@@ -282,7 +295,11 @@ pub fn split6(s: &str) -> Option<(u32, u32, u32)> {
     if s.len() != 6 || !s.bytes().all(|b| b.is_ascii_digit()) {
         return None;
     }
-    Some((s[0..2].parse().ok()?, s[2..4].parse().ok()?, s[4..6].parse().ok()?))
+    Some((
+        s[0..2].parse().ok()?,
+        s[2..4].parse().ok()?,
+        s[4..6].parse().ok()?,
+    ))
 }
 
 /// valid in at least one of the two candidate centuries
@@ -301,28 +318,166 @@ pub fn valid6_all_centuries(s: &str) -> bool {
 }
 
 pub fn valid_hhmm(s: &str) -> bool {
-    s.len() == 4 && s.bytes().all(|b| b.is_ascii_digit()) && s[0..2].parse::<u32>().unwrap() <= 23 && s[2..4].parse::<u32>().unwrap() <= 59
+    s.len() == 4
+        && s.bytes().all(|b| b.is_ascii_digit())
+        && s[0..2].parse::<u32>().unwrap() <= 23
+        && s[2..4].parse::<u32>().unwrap() <= 59
 }
 
 // ------------------------------------------------------------ ISO 4217
 
 /// (code, minor units). Active ISO-4217 codes with well-established minor units.
 pub const CURRENCIES: &[(&str, u8)] = &[
-    ("AED", 2), ("AFN", 2), ("ALL", 2), ("AMD", 2), ("ANG", 2), ("AOA", 2), ("ARS", 2), ("AUD", 2), ("AWG", 2), ("AZN", 2),
-    ("BAM", 2), ("BBD", 2), ("BDT", 2), ("BGN", 2), ("BHD", 3), ("BIF", 0), ("BMD", 2), ("BND", 2), ("BOB", 2), ("BRL", 2),
-    ("BSD", 2), ("BTN", 2), ("BWP", 2), ("BYN", 2), ("BZD", 2), ("CAD", 2), ("CDF", 2), ("CHF", 2), ("CLF", 4), ("CLP", 0),
-    ("CNY", 2), ("COP", 2), ("CRC", 2), ("CUP", 2), ("CVE", 2), ("CZK", 2), ("DJF", 0), ("DKK", 2), ("DOP", 2), ("DZD", 2),
-    ("EGP", 2), ("ERN", 2), ("ETB", 2), ("EUR", 2), ("FJD", 2), ("FKP", 2), ("GBP", 2), ("GEL", 2), ("GHS", 2), ("GIP", 2),
-    ("GMD", 2), ("GNF", 0), ("GTQ", 2), ("GYD", 2), ("HKD", 2), ("HNL", 2), ("HTG", 2), ("HUF", 2), ("IDR", 2), ("ILS", 2),
-    ("INR", 2), ("IQD", 3), ("IRR", 2), ("ISK", 0), ("JMD", 2), ("JOD", 3), ("JPY", 0), ("KES", 2), ("KGS", 2), ("KHR", 2),
-    ("KMF", 0), ("KPW", 2), ("KRW", 0), ("KWD", 3), ("KYD", 2), ("KZT", 2), ("LAK", 2), ("LBP", 2), ("LKR", 2), ("LRD", 2),
-    ("LSL", 2), ("LYD", 3), ("MAD", 2), ("MDL", 2), ("MGA", 2), ("MKD", 2), ("MMK", 2), ("MNT", 2), ("MOP", 2), ("MUR", 2),
-    ("MVR", 2), ("MWK", 2), ("MXN", 2), ("MYR", 2), ("MZN", 2), ("NAD", 2), ("NGN", 2), ("NIO", 2), ("NOK", 2), ("NPR", 2),
-    ("NZD", 2), ("OMR", 3), ("PAB", 2), ("PEN", 2), ("PGK", 2), ("PHP", 2), ("PKR", 2), ("PLN", 2), ("PYG", 0), ("QAR", 2),
-    ("RON", 2), ("RSD", 2), ("RUB", 2), ("RWF", 0), ("SAR", 2), ("SBD", 2), ("SCR", 2), ("SDG", 2), ("SEK", 2), ("SGD", 2),
-    ("SHP", 2), ("SOS", 2), ("SRD", 2), ("SSP", 2), ("SYP", 2), ("SZL", 2), ("THB", 2), ("TJS", 2), ("TMT", 2), ("TND", 3),
-    ("TOP", 2), ("TRY", 2), ("TTD", 2), ("TWD", 2), ("TZS", 2), ("UAH", 2), ("UGX", 0), ("USD", 2), ("UYU", 2), ("UYW", 4),
-    ("UZS", 2), ("VND", 0), ("VUV", 0), ("WST", 2), ("XAF", 0), ("XCD", 2), ("XOF", 0), ("XPF", 0), ("YER", 2), ("ZAR", 2),
+    ("AED", 2),
+    ("AFN", 2),
+    ("ALL", 2),
+    ("AMD", 2),
+    ("ANG", 2),
+    ("AOA", 2),
+    ("ARS", 2),
+    ("AUD", 2),
+    ("AWG", 2),
+    ("AZN", 2),
+    ("BAM", 2),
+    ("BBD", 2),
+    ("BDT", 2),
+    ("BGN", 2),
+    ("BHD", 3),
+    ("BIF", 0),
+    ("BMD", 2),
+    ("BND", 2),
+    ("BOB", 2),
+    ("BRL", 2),
+    ("BSD", 2),
+    ("BTN", 2),
+    ("BWP", 2),
+    ("BYN", 2),
+    ("BZD", 2),
+    ("CAD", 2),
+    ("CDF", 2),
+    ("CHF", 2),
+    ("CLF", 4),
+    ("CLP", 0),
+    ("CNY", 2),
+    ("COP", 2),
+    ("CRC", 2),
+    ("CUP", 2),
+    ("CVE", 2),
+    ("CZK", 2),
+    ("DJF", 0),
+    ("DKK", 2),
+    ("DOP", 2),
+    ("DZD", 2),
+    ("EGP", 2),
+    ("ERN", 2),
+    ("ETB", 2),
+    ("EUR", 2),
+    ("FJD", 2),
+    ("FKP", 2),
+    ("GBP", 2),
+    ("GEL", 2),
+    ("GHS", 2),
+    ("GIP", 2),
+    ("GMD", 2),
+    ("GNF", 0),
+    ("GTQ", 2),
+    ("GYD", 2),
+    ("HKD", 2),
+    ("HNL", 2),
+    ("HTG", 2),
+    ("HUF", 2),
+    ("IDR", 2),
+    ("ILS", 2),
+    ("INR", 2),
+    ("IQD", 3),
+    ("IRR", 2),
+    ("ISK", 0),
+    ("JMD", 2),
+    ("JOD", 3),
+    ("JPY", 0),
+    ("KES", 2),
+    ("KGS", 2),
+    ("KHR", 2),
+    ("KMF", 0),
+    ("KPW", 2),
+    ("KRW", 0),
+    ("KWD", 3),
+    ("KYD", 2),
+    ("KZT", 2),
+    ("LAK", 2),
+    ("LBP", 2),
+    ("LKR", 2),
+    ("LRD", 2),
+    ("LSL", 2),
+    ("LYD", 3),
+    ("MAD", 2),
+    ("MDL", 2),
+    ("MGA", 2),
+    ("MKD", 2),
+    ("MMK", 2),
+    ("MNT", 2),
+    ("MOP", 2),
+    ("MUR", 2),
+    ("MVR", 2),
+    ("MWK", 2),
+    ("MXN", 2),
+    ("MYR", 2),
+    ("MZN", 2),
+    ("NAD", 2),
+    ("NGN", 2),
+    ("NIO", 2),
+    ("NOK", 2),
+    ("NPR", 2),
+    ("NZD", 2),
+    ("OMR", 3),
+    ("PAB", 2),
+    ("PEN", 2),
+    ("PGK", 2),
+    ("PHP", 2),
+    ("PKR", 2),
+    ("PLN", 2),
+    ("PYG", 0),
+    ("QAR", 2),
+    ("RON", 2),
+    ("RSD", 2),
+    ("RUB", 2),
+    ("RWF", 0),
+    ("SAR", 2),
+    ("SBD", 2),
+    ("SCR", 2),
+    ("SDG", 2),
+    ("SEK", 2),
+    ("SGD", 2),
+    ("SHP", 2),
+    ("SOS", 2),
+    ("SRD", 2),
+    ("SSP", 2),
+    ("SYP", 2),
+    ("SZL", 2),
+    ("THB", 2),
+    ("TJS", 2),
+    ("TMT", 2),
+    ("TND", 3),
+    ("TOP", 2),
+    ("TRY", 2),
+    ("TTD", 2),
+    ("TWD", 2),
+    ("TZS", 2),
+    ("UAH", 2),
+    ("UGX", 0),
+    ("USD", 2),
+    ("UYU", 2),
+    ("UYW", 4),
+    ("UZS", 2),
+    ("VND", 0),
+    ("VUV", 0),
+    ("WST", 2),
+    ("XAF", 0),
+    ("XCD", 2),
+    ("XOF", 0),
+    ("XPF", 0),
+    ("YER", 2),
+    ("ZAR", 2),
     ("ZMW", 2),
 ];
 
